@@ -1688,7 +1688,8 @@ func (t *tScreen) parseRune(buf *bytes.Buffer, evs *[]Event) (bool, bool) {
 	utf := make([]byte, 12)
 	for l := 1; l <= len(b); l++ {
 		t.decoder.Reset()
-		nOut, nIn, e := t.decoder.Transform(utf, b[:l], true)
+		// not at EOF: the rest of a multi-byte character may follow
+		nOut, nIn, e := t.decoder.Transform(utf, b[:l], false)
 		if e == transform.ErrShortSrc {
 			continue
 		}
